@@ -60,6 +60,15 @@ def conc(x):
     return x
 
 
+def pick(i, n):
+    """Concretise an int known to lie in range(n) by an explicit comparison chain: one path per value, no duplicates
+    (deep_realize's model-value decisions were measured to revisit values: 26 paths for 15 values)."""
+    for x in range(n):
+        if i == x:
+            return x
+    raise AssertionError("pick: value outside range(%d)" % n)
+
+
 @contextlib.contextmanager
 def quiet():
     """liquer prints and logs while working; formatting is not the subject."""
